@@ -108,10 +108,26 @@ def main():
         build.prune_cache()
         return rc
     except Broken as e:
-        print("ANALYSIS-BROKEN property=%s: %s" % (prop, e))
-        return 2
+        return incomplete(prop, a, seed, t0, str(e))
     except Exception:
         traceback.print_exc()
-        print("ANALYSIS-BROKEN property=%s: internal error" % prop)
-        return 2
+        return incomplete(prop, a, seed, t0, "internal error")
+
+
+def incomplete(prop, a, seed, t0, why):
+    """The analysis stopped before all rules ran.  Violations already established are real and
+    are reported (exit 1); without any, the run is analysis-broken (exit 2), never a pass."""
+    partial = report.CURRENT.get(prop)
+    print("ANALYSIS-BROKEN property=%s: %s" % (prop, why))
+    if partial is not None and any(not o["ok"] for o in partial.obligations):
+        partial.notes.append("analysis incomplete: %s — the violations below were established before it stopped" % why)
+        partial.floors, partial.deficits = [], []
+        try:
+            meta = facts.load(os.path.realpath(a.root), "default", ()).meta
+            level = getattr(sys.modules.get("rules." + prop.lower()), "LEVEL", "other")
+            rc = report.finish(partial, a.tier, seed, t0, meta, level=level, selftest=None, extra_cov={"incomplete": why})
+            return rc if rc != 0 else 2
+        except Exception:
+            traceback.print_exc()
+    return 2
 
